@@ -42,6 +42,7 @@ Reorder  == /\ R = C /\ pc = "builder" /\ pc' = "reorder" /\ UNCHANGED <<mask, o
             /\ \E p \in 0..(Fact(R) - 1) : pi' = p /\ LET P == NthPerm([i \in 1..R |-> i - 1], p) IN out' = ReorderView(A, P, InverseOf(P))
 Scaled   == R = C /\ Step("builder", "scaled", ScaledView(A, Scale))
 Next == Tuple \/ ZeroCopy \/ Builder \/ Reorder \/ Scaled
+NextRect == Tuple \/ ZeroCopy \/ Builder          \* rectangular scopes (AdaptersRect.cfg): no reorder / scaling
 
 X == [j \in 1..C |-> j * j - 2]
 TupleInv    == pc = "tuple" => /\ out.rows = R /\ out.nnz = NNZ(A) /\ (R = C => ViewOK(out, A))
